@@ -3,7 +3,7 @@
 (declare-const u16_1 (_ BitVec 16))
 (declare-const b_2 (_ BitVec 8))
 (push 1)
-(define-fun t!5545812 () Bool (= u16_1 (bvor (bvshl ((_ zero_extend 8) ((_ extract 7 0) (bvlshr u16_1 #x0008))) #x0008) ((_ zero_extend 8) ((_ extract 7 0) u16_1)))))
-(define-fun t!5545813 () Bool (not t!5545812))
-(assert t!5545813)
+(define-fun t!5738216 () Bool (= u16_1 (bvor (bvshl ((_ zero_extend 8) ((_ extract 7 0) (bvlshr u16_1 #x0008))) #x0008) ((_ zero_extend 8) ((_ extract 7 0) u16_1)))))
+(define-fun t!5738217 () Bool (not t!5738216))
+(assert t!5738217)
 (check-sat)
